@@ -36,4 +36,4 @@ FUNCTIONS = FUNCTIONS + [q for q in KIDS if q not in FUNCTIONS]
 
 VALIDATION = [validate_bs4]
 
-FUNCTIONS = FUNCTIONS + [q for q in CACHE + LANG + INDET[:2] if q not in FUNCTIONS]
+FUNCTIONS = FUNCTIONS + [q for q in CACHE + LANG + INDET[:2] + DIRFN if q not in FUNCTIONS]
